@@ -28,6 +28,20 @@ func VerifUnifiedHistory() {
 	ref := map[string]map[string]bool{} // endpoint URL -> set of model names of the latest listing
 	dropped := false                     // some endpoint's newer listing (or removal) dropped a model it listed before
 	nl := 1 << len(zzModels)
+	if gosym.Param("INIT") == 1 {
+		// reachable start state: every endpoint lists every model and unification has finished
+		for _, e := range eps {
+			var list []*domain.ModelInfo
+			now := map[string]bool{}
+			for _, m := range zzModels {
+				list = append(list, &domain.ModelInfo{Name: m})
+				now[m] = true
+			}
+			r.RegisterModelsWithEndpoint(ctx, e, list)
+			ref[e.URLString] = now
+			gosym.RunPending()
+		}
+	}
 	for step := 0; step < L; step++ {
 		var e *domain.Endpoint
 		var what int // 0..nl-1: register that listing; nl: remove
